@@ -160,6 +160,9 @@ func c17Main(args []string) error {
 		ref := run("fresh", fresh)
 		reused := run("reused", func() ([]byte, error) {
 			w := mk(&failingSink{limit: sc.FailAt})
+			if rid%3 == 0 { // the earlier file also got key/value metadata at run time
+				w.setKV("earlier-file", "only")
+			}
 			c17Silent(w, sc.Prior, seed, 1)
 			buf := new(bytes.Buffer)
 			w.reset(buf)
